@@ -17,6 +17,7 @@ type Gen struct {
 	ColPool   []string
 	MaxRows   int  // soft limit per table
 	BigRecs   bool // sometimes generate records near the 256 / 65536 byte format limits
+	BigMax    int  // if > 0: upper limit for the length of those values
 	// AvoidKnownC21: do not generate the triggers of two known findings of C21, so that the
 	// monitors of other properties are not blinded by them: (a) dropping an index that
 	// carries a self-referencing foreign key (its FkToHere entry is left behind),
@@ -486,6 +487,9 @@ func (g *Gen) RandRow(t *Table, base Row) Row {
 			if !used {
 				targets := []int{200, 235, 245, 250, 255, 260, 300, 4000, 65400, 65500, 65530, 65540, 70000}
 				n := targets[g.R.IntN(len(targets))] + g.R.IntN(12)
+				if g.BigMax > 0 && n > g.BigMax {
+					n = 200 + n%max(1, g.BigMax-200)
+				}
 				row[i] = Val{S: strings.Repeat("L", n)}
 				break
 			}
